@@ -661,6 +661,19 @@ pub fn check_shape<P: TP, V: Val>(side: &Side<P, V>, env: &mut Env) -> R<Shape> 
     // valued nodes of the shape are exactly the model keys
     let mut nodes = Vec::new();
     s.nodes(&mut nodes);
+    let d = s.depth();
+    if d >= 8 {
+        env.ev("shape_depth_ge8");
+    }
+    if d >= 16 {
+        env.ev("shape_depth_ge16");
+    }
+    if nodes.len() >= 32 {
+        env.ev("shape_nodes_ge32");
+    }
+    if nodes.len() >= 64 {
+        env.ev("shape_nodes_ge64");
+    }
     let valued: BTreeSet<Key> = nodes.iter().filter(|n| n.1).map(|n| n.0).collect();
     let mk: BTreeSet<Key> = side.model.m.keys().copied().collect();
     ensure!(
